@@ -54,6 +54,10 @@ CLAIMED += [
          text="Termination checked by TLC under weak fairness per thread; every lasso/stuttering counterexample is replayed on the real code where a "
               "fairness-aware spin detector records non-termination; root-cause signatures separate the two listed findings from any other "
               "non-termination, which is reported as a violation."),
+    dict(property_id="C12", engine="sync", technique=SYNC_TECH + "; happens-before bookkeeping (HB.tla) in the model and on traces", design_ref="6 C12", note=SYNC_NOTE,
+         text="HB.tla (release sequences, acquire joins, epochs) is carried along every interleaving of every scenario (MCSyncHB, invariant NoRace, orderings of the "
+              "micro-op table) and rebuilt by TLC from the orderings the code actually passes on every recorded execution (TraceHB): Meta::clear, user accesses, "
+              "atomic accesses of node words and the unmapping of the memory are checked against earlier conflicting accesses; teardown scenarios give every thread its own arena value."),
 ]
 
 NOT_YET = "check not built yet in this round (construction in progress; see DESIGN.md section 11)"
@@ -88,7 +92,7 @@ def main():
             "add_only": True,
         },
         "engines": [
-            {"name": "sync", "path": "lib/eng_sync.py", "serves_properties": ["C02", "C07"],
+            {"name": "sync", "path": "lib/eng_sync.py", "serves_properties": ["C02", "C07", "C12"],
              "kind_free_text": "ArenaSync.tla (one action per atomic access of sync.rs, byte-exact memory) + MCSync; harness/src/conc.rs controlled scheduler; TraceSyncProp / TraceSyncImpl"},
             {"name": "seq", "path": "lib/eng_seq.py", "serves_properties": sorted(c["property_id"] for c in CLAIMED if c["engine"] == "seq"),
              "kind_free_text": "ArenaSeq.tla (implementation-level sequential spec) + ArenaProps.tla (property predicates) model-checked by TLC (MCSeq); "
